@@ -639,6 +639,43 @@ theorem C02_nothing_wanted_nothing_possible (p : ProxyS) (m : MuxL)
       have := (wants_muxW p m).mpr ⟨hc, hne, ht⟩
       rw [this] at h3; cases h3
 
+/-- **A finished flow is noticed by the callback that finishes it.**  After every `Proxy.callback`
+nothing is left for the next `pre_select` to propagate (`shut_write` on one wrapper already means
+`shut_read` on the other), so a handler whose two writers are shut and whose buffers are empty has
+been marked `ok = False` by that very callback — the select loop drops it at the start of its next
+pass instead of at some later, unrelated wake-up. -/
+theorem C02_finished_noticed_in_callback (p : ProxyS) (m : MuxL) (e : ESock) (io : CbIo)
+    (p' : ProxyS) (m' : MuxL) (e' : ESock) (h : p.callback m e io = .ok p' m' e') :
+    (p'.preSelectFlags m').1 = p' ∧
+    (p'.sw.shutW = true → p'.mw.shutW = true → p'.sw.buf = [] → p'.mw.buf = [] → p'.ok = false) := by
+  obtain ⟨⟨h1, h2⟩, h3⟩ := callback_settled p m e io p' m' e' h
+  refine ⟨?_, h3⟩
+  obtain ⟨⟨sb, sr, sw, sc, sx⟩, ⟨wc, wb, wr, ww⟩, pok, sf⟩ := p'
+  simp only at h1 h2
+  cases sf <;> cases sw <;> cases ww <;> cases wr <;> cases sr <;>
+    simp_all [ProxyS.preSelectFlags, MuxW.noread, SockW.noread]
+
+def demo4 : List Step :=
+  [.accept, .deliver .server .ok, .deliver .server .ok, .dstEof 0,
+   .cb .server 0 { recv := .data 65536 }, .deliver .client .ok, .deliver .client .ok, .cb .client 0 { send := .sent 65536 },
+   .appWrite 0 [1], .cb .client 0 { recv := .data 65536 }, .deliver .server .ok,
+   .cb .server 0 { send := .epipe }, .deliver .client .ok]
+
+/-- `C02_finished_noticed_in_callback` at work on a reachable state: the destination closed first,
+then refused the application's data (EPIPE), the STOP_SENDING has just been handled by the client's
+Mux: the client's handler has both writers shut and empty buffers but has not yet recorded
+`shut_read` on its socket side.  The callback it gets in the same pass of the select loop records
+it and marks the handler finished (before the repair of this defect the flag was only set by the
+next `pre_select`, after which no callback was due: the handler stayed registered). -/
+example :
+    let w : World := ({} : World).run demo4
+    (w.flows.map fun f => f.c.map fun p => (p.ok, p.sw.shutR, p.sw.shutW)) = [some (true, false, true)] ∧
+    (w.flows.map fun f => f.c.map fun p => (p.mw.shutR, p.mw.shutW, p.sw.buf.isEmpty && p.mw.buf.isEmpty)) =
+      [some (true, true, true)] ∧
+    ((w.step (.cb .client 0 {})).flows.map fun f => f.c.map fun p => (p.ok, p.sw.shutR)) = [some (false, true)] := by
+  intro w
+  exact ⟨by decide +kernel, by decide +kernel, by decide +kernel⟩
+
 /-- The hypotheses of `C02_wakeup_deliver` are met by the reachable state of `demo2` (the server
 holds `[1,2,3]` for a destination that is not shut): the callback delivers. -/
 example :
